@@ -41,6 +41,11 @@ func (e *env) lookup(name string) *cell {
 //	  may lack the chunk:line: prefix.
 var Quirks = map[string]bool{}
 
+// StrictCoroutineDeath makes the model discard programs in which an error
+// kills a coroutine that still has pending to-be-closed variables (see
+// runCloser). By default the model closes them while the error unwinds.
+var StrictCoroutineDeath = false
+
 type sigKind int
 
 const (
@@ -359,10 +364,17 @@ func (in *Interp) runCloser(v Value, sig signal) signal {
 		if errVal == closeSentinel {
 			errVal = nil
 		} else if !closing && in.cur != nil && in.cur.prot == 0 {
-			// manual §3.3.8: a coroutine that ends with an error does not
-			// unwind its stack and closes nothing until coroutine.close;
-			// implementations that close at once differ observably.
-			unspecified("error kills a coroutine that has pending to-be-closed variables")
+			// An error is killing the coroutine. Manual §3.3.8: "if a coroutine
+			// ends with an error, it does not unwind its stack, so it does not
+			// close any variable" until coroutine.close; property C10/C09 on
+			// the other hand list "an error propagating out" among the exits
+			// that close. The model follows the second reading (close at once,
+			// which is what golua does) unless StrictCoroutineDeath is set,
+			// in which case such cases are discarded.
+			in.feat("eager-close-at-coroutine-death")
+			if StrictCoroutineDeath {
+				unspecified("error kills a coroutine that has pending to-be-closed variables")
+			}
 		}
 	}
 	in.feat("close-handler-run")
